@@ -170,6 +170,15 @@ func VerifC17_ConfiguredVsAdded() {
 		learned.RemovePeer(base[late])
 		learned.AddPeer(base[late])
 	}
+	// announcing a peer that is already known changes nothing
+	learned.AddPeer(base[ndPick("announced-again", n)])
+	vAssert(len(learned.peerNodes) == n, "adding a peer that is already present changed the size of the peer set")
+	rk := rendezvousRanked(vSub, append([]string(nil), learned.peerNodes...))
+	for i := range rk {
+		for j := i + 1; j < len(rk); j++ {
+			vAssert(rk[i] != rk[j], "ranking is not a permutation of the peer set (a peer is listed twice)")
+		}
+	}
 	vAssert(configured.GetOwner(vSub) == owner && learned.GetOwner(vSub) == owner, "owner depends on how the peer set was built")
 	vAssert(configured.getHealthyOwner(vSub) == owner, "a freshly configured node does not route to the owner")
 	vAssert(learned.getHealthyOwner(vSub) == owner, "a node that learned a peer at run time routes its subscribers elsewhere than a node configured with it")
@@ -182,10 +191,34 @@ func VerifC17_ServedByOne() {
 	n := vParam("peers", 2)
 	verifAssumeDistinct(n)
 	base := vPeers[:n]
+	if ndPick("prefix-names", 2) == 1 {
+		// node ids of which one is a prefix of another (bng1 / bng10), listed in either order
+		base = []string{"sym:bng10", "sym:bng1", "sym:bng2"}[:n]
+		if ndPick("prefix-order", 2) == 1 {
+			base[0], base[1] = base[1], base[0]
+		}
+		for i := 0; i < n; i++ {
+			for j := i + 1; j < n; j++ {
+				vAssume(hashString(base[i]) != hashString(base[j]))
+				vAssume(hashCombine(hashString(vSub), base[i]) != hashCombine(hashString(vSub), base[j]))
+			}
+			vAssume(hashCombine(hashString(vSub), base[i]) != 0)
+		}
+	}
 	owner := rendezvousHash(vSub, base)
 	self := base[ndPick("self", n)]
 	vAssume(self != owner)
-	node := verifRealPool(self, base)
+	cfgPeers := base
+	if ndPick("peers-exclude-self", 2) == 1 {
+		// the usual configuration style: the peer list names the OTHER nodes (in the order given)
+		cfgPeers = nil
+		for _, b := range base {
+			if b != self {
+				cfgPeers = append(cfgPeers, b)
+			}
+		}
+	}
+	node := verifRealPool(self, cfgPeers)
 	ctx := context.Background()
 	// the owner looks unhealthy: the ranking's next healthy node serves (assumed to be this node)
 	node.peerHealthMap[owner].healthy = false
@@ -198,6 +231,12 @@ func VerifC17_ServedByOne() {
 	vHTTPNext(vJSON(&AllocationResponse{IP: "10.0.0.6", SubscriberID: vSub, NodeID: owner}))
 	r2, err := node.Allocate(ctx, vSub, nil)
 	vAssume(err == nil)
+	vObserve("url", vHTTPLastURL())
+	vObserve("owner", owner)
+	vObserve("self", self)
+	if u := vHTTPLastURL(); u != "" {
+		vAssert(u == "http://"+owner+"/pool/allocate", "the request was forwarded to a node other than the owner")
+	}
 	vAssert(r2.NodeID == owner, "after the owner recovered the fallback node still serves the subscriber from its own pool (two pools serve one subscriber)")
 	vReach("end")
 }
